@@ -77,7 +77,9 @@ MIN_COUNTERS = {
               'definitions_parsed_mc': 200, 'definitions_parsed_wf': 200,
               'variant_blocks_checked': 50, 'names_longer_than_200': 20,
               'recovered_failing_wraps': 1000,
-              'failed_wrap_twins_compared': 800},
+              'failed_wrap_twins_compared': 800,
+              'unwritable_retries_checked': 1500,
+              'unwritable_corrections_checked': 200},
     'thorough': {'definitions_parsed': 50000, 'units_checked': 1000000,
                  'reader_roundtrips': 100000,
                  'width_first_pairs_checked': 100000, 'invalid_rejected': 10000,
@@ -86,11 +88,14 @@ MIN_COUNTERS = {
                  'definitions_parsed_wf': 5000, 'variant_blocks_checked': 2000,
                  'names_longer_than_200': 500,
                  'recovered_failing_wraps': 20000,
-                 'failed_wrap_twins_compared': 15000},
+                 'failed_wrap_twins_compared': 15000,
+                 'unwritable_retries_checked': 20000,
+                 'unwritable_corrections_checked': 3000},
 }
 
 KINDS = {'plain': 7000, 'mc': 7000, 'wf': 7000, 'variants': 4500, 'big': 720,
-         'invalid': 4500, 'invalid-ctor': 9000, 'wrap': 5000}
+         'invalid': 4500, 'invalid-ctor': 9000, 'wrap': 5000,
+         'unwritable': 4000}
 # quick tier sizes (cases); also capped in seconds
 
 
@@ -502,6 +507,137 @@ def build_catalogue(gg, scgf, acc):
     return out
 
 
+# ---------------------------------------------------------------------------
+# definitions whose graph builds but that can not be encoded: every request
+# for the bytes, through every entry point, must be answered the same way
+# ---------------------------------------------------------------------------
+UNWRITABLE = ['big-constant', 'big-default', 'big-variant', 'name-too-long',
+              'name-non-ascii']
+BIG = [1e39, -3.5e38, 1e300, -1e40, 3.5e38]
+
+
+def unwritable_program(rng, i, gg):
+    what = UNWRITABLE[i % len(UNWRITABLE)]
+    prog = gg.gen_program_c02(rng, 'plain',
+                              name=''.join(rng.choice('abcdefgh_123')
+                                           for _ in range(rng.randint(1, 18))))
+    fixed = None
+    if what == 'big-constant':
+        prog['nodes'].append({'k': 'raw', 'src':
+                              f'Out.kr(0, SinOsc.kr(3) * {rng.choice(BIG)!r})'})
+    elif what == 'big-default':
+        prog['params'].append({'name': 'big', 'rate': rng.choice(['kr', 'ir']),
+                               'default': rng.choice(BIG), 'lag': 0})
+    elif what == 'big-variant':
+        prog['params'].append({'name': 'vp', 'rate': 'kr', 'default': 0.5,
+                               'lag': 0})
+        prog['variants'] = {'a': {'vp': 2.0}, 'b': {'vp': rng.choice(BIG)}}
+        if rng.random() < 0.5:
+            prog['variants'] = dict(reversed(list(prog['variants'].items())))
+        fixed = ('b', 'vp', 1.5)
+    elif what == 'name-too-long':
+        prog['name'] = ''.join(rng.choice(ASCII) for _ in range(
+            rng.choice([256, 257, 300, 511, 512])))
+    else:
+        prog['name'] = rng.choice(['se\u00f1al', '\u00e9', 'a\u20acb', 'x\u00df'])\
+            + ''.join(rng.choice('abc') for _ in range(rng.randint(0, 5)))
+    prog['kind'] = 'unwritable:' + what
+    return prog, what, fixed
+
+
+ASCII = ''.join(chr(c) for c in range(32, 127))
+
+
+def run_unwritable(spec, acc, gg, scgf, SynthDesc):
+    ENTRIES = {
+        'as_bytes': lambda sd: bytes(sd.as_bytes()),
+        'new_from': lambda sd: bytes(SynthDesc.new_from(sd).sdef.as_bytes()),
+        'add': lambda sd: (sd.add(), bytes(sd.as_bytes()))[1],
+    }
+    for i in iter_cases(spec):
+        rng = case_rng(spec['seed'], 'C02', 'unwritable', i)
+        prog, what, fixed = unwritable_program(rng, i, gg)
+        sig = h64(json.dumps([prog['name'], prog['params'], prog['nodes'],
+                              prog.get('variants')], sort_keys=True, default=str))
+        acc.count('programs_generated')
+        try:
+            sd = gg.build(prog)
+        except Exception:
+            # rejected at construction: nothing can be asked for its bytes
+            acc.count('unwritable_rejected_by_constructor')
+            acc.case(sig, nontrivial=False)
+            continue
+        acc.case(sig, nontrivial=True)
+        seq = [rng.choice(['as_bytes', 'as_bytes', 'new_from', 'add'])]
+        seq += [rng.choice(['as_bytes', 'as_bytes', 'new_from', 'add'])
+                for _ in range(rng.randint(1, 3))]
+        if 'as_bytes' not in seq[1:]:
+            seq.append('as_bytes')
+        outcomes = []
+        for entry in seq:
+            try:
+                outcomes.append((entry, 'bytes', ENTRIES[entry](sd)))
+            except Exception as e:
+                outcomes.append((entry, 'raises', type(e).__name__))
+            acc.count('unwritable_requests')
+        first = outcomes[0]
+        witness = {'case': i, 'what': what, 'requests': [
+            (e, k, v if k == 'raises' else f'{len(v)} bytes')
+            for e, k, v in outcomes], 'script': gg.script(prog)[:5000]}
+        if first[1] == 'bytes':
+            # the library found a way to write it: then it has to be a
+            # complete, repeatable definition
+            acc.count('unwritable_written_by_first_request')
+            try:
+                scgf.parse(first[2])
+            except scgf.ScgfError as e:
+                acc.violation(f'C02/unwritable-def/accepted/{what}',
+                              dict(witness, detail=str(e)))
+                continue
+        for entry, k, v in outcomes[1:]:
+            acc.count('unwritable_retries_checked')
+            if first[1] == 'raises' and k == 'bytes':
+                try:
+                    scgf.parse(v)
+                    ok = 'a complete definition'
+                except scgf.ScgfError as e:
+                    ok = f'not a definition ({e})'
+                acc.violation(
+                    f'C02/unwritable-def/bytes-after-failed-request/{entry}',
+                    dict(witness, detail=f'first request ({first[0]}) raised '
+                         f'{first[2]}; a later {entry} returned {len(v)} '
+                         f'bytes: {ok}'))
+                break
+            if first[1] == 'raises' and v != first[2]:
+                acc.violation('C02/unwritable-def/exception-class-changes',
+                              dict(witness, detail=f'{first[2]} then {v}'))
+                break
+            if first[1] == 'bytes' and (k != 'bytes' or v != first[2]):
+                acc.violation('C02/as-bytes-not-repeatable', witness)
+                break
+        if fixed and first[1] == 'raises':
+            vn, cname, val = fixed
+            try:
+                sd.variants[vn][cname] = val        # correct the cause
+                got = bytes(sd.as_bytes())
+                good = json.loads(json.dumps(prog))
+                good['variants'][vn][cname] = val
+                want = bytes(gg.build(good).as_bytes())
+                acc.count('unwritable_corrections_checked')
+                if got != want:
+                    acc.violation(
+                        'C02/unwritable-def/bytes-after-correction-differ',
+                        dict(witness, detail=f'{len(got)} bytes after the '
+                             f'variant was corrected, a fresh build has '
+                             f'{len(want)}'))
+            except Exception as e:
+                acc.violation(
+                    'C02/unwritable-def/still-rejected-after-correction',
+                    dict(witness, detail=safe(lambda: repr(e)[:300])))
+        if acc.want_sample() and len(prog['nodes']) < 14:
+            acc.sample(witness)
+
+
 def invalid_ctor_program(rng, i, cat, gg):
     ent = cat[(i // len(BAD_VALUES)) % len(cat)]
     bad = sorted(BAD_VALUES)[i % len(BAD_VALUES)]
@@ -532,6 +668,8 @@ def run_shard(spec, acc):
     if kind0 == 'invalid-ctor' and len(cat) < 50:
         acc.mark_inconclusive(f'constructor catalogue has {len(cat)} entries')
         return
+    if kind0 == 'unwritable':
+        return run_unwritable(spec, acc, gg, scgf, SynthDesc)
     for i in iter_cases(spec):
         rng = case_rng(spec['seed'], 'C02', kind0, i)
         kind = kind0
@@ -614,6 +752,10 @@ def run_shard(spec, acc):
                             f'C02/reader-raises/{type(e2).__name__}/{site}',
                             safe(lambda: f'{how}: {e2!r}'[:300])))
         if d is not None:
+            again = bytes(sd.as_bytes())
+            if again != raw:
+                problems.append(('C02/as-bytes-not-repeatable',
+                                 f'{len(raw)} bytes, then {len(again)}'))
             acc.count('definitions_parsed')
             acc.count('definitions_parsed_' + kind.split(':')[0])
             acc.maxi('max_units_in_a_definition', len(d.units))
